@@ -1,15 +1,57 @@
 (* C12 -- the wire schema is exactly what the struct tags say.
-   PARTIAL: the printer/parser theorem over all schemas and spellings is not proved; what is
-   machine-checked here is the resolver model on concrete definitions.  The property is decided by
-   the correspondence: on every run the model's resolver (Tags.v) is evaluated on every struct
-   definition of the universe -- including every equivalent spelling -- and must reproduce the schema
-   the tags were printed from, and the implementation's resolver (hook) must agree with the model's. *)
+   Proved for the model of internal/defs (Tags.v): the parser inverts a printer of schemas that may
+   put arbitrary white space before every token, use either keyword of a kind (i8 / byte), qualify
+   struct and enum names with a package, and carry the field in a frugal or a thrift tag.  Not
+   covered by the theorems: the id sort of resolve_fields, tags with omitted requiredness or
+   annotation at the field level (type level: C12_no_annotation), escapes inside tags.  The tie to
+   the implementation is the correspondence: on every run the implementation's resolver (hook) must
+   agree with the model's on every struct definition of the universe. *)
 From Coq Require Import List NArith Bool.
 From Frugal Require Import Bytes Wire Skip Values Desc Spec Encode Decode Checks Tags State Bitset Alloc DescMap Conc LegacyDefs.
 From Frugal.gen Require Import Params.
 From Frugal.proofs Require Import GenOk BytesWire EncodeSpec SizeExact SkipPut DecodeSafe DecodeRefines RoundTrip Corollaries StateProofs BitsetProofs AllocProofs DescMapProofs ConcProofs BufferContract.
+From Frugal.proofs Require Import TagsProofs.
 From Frugal.props Require Import Examples.
 Import ListNotations.
+
+(* every spelling of a schema type parses to that schema type, whatever follows *)
+Theorem C12_parse_print : forall t s rest allow,
+  sty_ok allow t = true -> prints t s -> rest_ok rest ->
+  parse_type (go_of t) true (s ++ rest) allow = ROk (dt_of t, rest).
+Proof. exact parse_print. Qed.
+Print Assumptions C12_parse_print.
+
+Theorem C12_spellings_equivalent : forall t s1 s2,
+  sty_ok true t = true -> prints t s1 -> prints t s2 ->
+  parse_type_top (go_of t) s1 = parse_type_top (go_of t) s2.
+Proof. exact spellings_equivalent. Qed.
+
+(* no annotation where the Go type determines the schema (a named int64 is then a plain i64) *)
+Theorem C12_no_annotation : forall t, sty_ok true t = true -> no_slice t = true ->
+  parse_type_top (go_of t) [] = ROk (dt_of' t).
+Proof. exact parse_noannot_top. Qed.
+
+(* field level: id, requiredness, type and option come from the tag; the frugal tag wins over a
+   thrift tag; the thrift carrier (any field-name text) gives the same field *)
+Theorem C12_frugal_wins : forall t s n rq nc p ps gf idx seen sp sp' v1 r,
+  sty_ok true t = true -> prints t s -> (n < 65536)%N -> field_parts n rq s nc p ps ->
+  field_ptr_ok t rq = true -> (nc = true -> is_stringlike t = true) ->
+  gf_anonymous gf = false -> gf_exported gf = true -> gf_type gf = go_of t -> memN n seen = false ->
+  blanks sp -> blanks sp' -> no_quote v1 ->
+  gf_tag gf = sp ++ tag_entry s_thrift v1 ++ sp' ++ tag_entry s_frugal (join_comma p ps) ++ r ->
+  resolve_one gf idx seen = ROk (Some (mkDField n (dt_of t) rq nc idx)).
+Proof. exact resolve_thrift_frugal. Qed.
+
+Theorem C12_carriers_agree : forall t s1 s2 n rq nc gf1 gf2 idx seen name,
+  sty_ok true t = true -> prints t s1 -> prints t s2 -> (n < 65536)%N ->
+  field_ptr_ok t rq = true -> (nc = true -> is_stringlike t = true) ->
+  gf_anonymous gf1 = false -> gf_exported gf1 = true -> gf_type gf1 = go_of t ->
+  gf_anonymous gf2 = false -> gf_exported gf2 = true -> gf_type gf2 = go_of t ->
+  memN n seen = false -> Forall plain name ->
+  gf_tag gf1 = mk_frugal_tag n rq s1 nc -> gf_tag gf2 = mk_thrift_tag name n rq s2 nc ->
+  resolve_one gf1 idx seen = resolve_one gf2 idx seen.
+Proof. exact carriers_agree. Qed.
+Print Assumptions C12_carriers_agree.
 
 Definition tag (s : list N) : list N := s.
 (* frugal:"7,required,map<i32:list<Leaf>>" on a map[int32][]*Leaf; Leaf is struct 0 *)
